@@ -12,8 +12,24 @@ import (
 //   CHV:<elem leaf>[ch][k] = the k-th value ever sent (FIFO: the k-th receive yields it).
 // Blocking is not modelled: a receive on an empty open channel, or a send on a full one, stands for "another goroutine acts first".
 
+// setChanElem: the channel operations below address the ghost state of channels of this element type (channels of different element
+// types are different objects, so their ghost state lives under different keys).
+func (st *State) setChanElem(chanType types.Type) {
+	if chanType == nil {
+		fail("channel operation on a value of unknown channel type")
+	}
+	ct, ok := resolveTP(chanType).Underlying().(*types.Chan)
+	if !ok {
+		fail("channel operation on non-channel type %s", chanType)
+	}
+	st.curChanElem = ct.Elem()
+}
+
 func (st *State) chanKey(f string) string {
-	k := "CH:" + f
+	if st.curChanElem == nil {
+		fail("channel operation without element type")
+	}
+	k := "CH:" + f + "<" + typeRepr(st.curChanElem) + ">"
 	if f == "open" {
 		st.vc.setKeySort(k, arrSort(SInt, SBool))
 	} else {
@@ -100,6 +116,7 @@ func (st *State) recordStructSent(ch, sent Term, sv StructV, t types.Type, prefi
 func t0(st *State, t types.Type, prefix string) types.Type { return st.curChanElem }
 
 func (st *State) chanSend(ch Term, v Val, el types.Type, label string, blocking bool) {
+	st.curChanElem = el
 	st.oblige("chan", label+":not-closed", tOr(tEq(ch, tInt(0)), st.chanGet(ch, "open")), "send on a channel that is not closed")
 	if blocking {
 		st.oblige("chan", label+":not-nil", tNot(tEq(ch, tInt(0))), "blocking send on a non-nil channel")
@@ -119,6 +136,7 @@ func (st *State) chanSend(ch Term, v Val, el types.Type, label string, blocking 
 func (st *State) chanRecv(x *ssa.UnOp) {
 	ch := st.value(x.X).(TV).T
 	el := x.X.Type().Underlying().(*types.Chan).Elem()
+	st.curChanElem = el
 	st.assume(tNot(tEq(ch, tInt(0)))) // receive from a nil channel blocks forever: the path ends
 	st.chanWF(ch)
 	sent, rcvd := st.chanGet(ch, "sent"), st.chanGet(ch, "rcvd")
@@ -199,6 +217,7 @@ func (st *State) selectOp(x *ssa.Select) {
 	}
 	ch := st.value(x.States[0].Chan).(TV).T
 	el := x.States[0].Chan.Type().Underlying().(*types.Chan).Elem()
+	st.curChanElem = el
 	lbl := fmt.Sprintf("select#%d", vc.ordinals[x])
 	st.chanWF(ch)
 	st.chanSend(ch, nil, el, lbl, false)
